@@ -14,13 +14,14 @@ Definition sx_zs (l : list Z) : sx := SL (map SZ l).
 Definition sx_rows (l : list (list Z)) : sx := SL (map sx_zs l).
 
 Definition scache_case := (list Z * list sop)%type.
-Definition scache_spec (c : scache_case) : sx := sx_zs (spec_log (fst c) (snd c) []).
+(* a domain is the set of its elements in first-occurrence order: an element listed twice is one element *)
+Definition scache_spec (c : scache_case) : sx := sx_zs (spec_log (dedup (fst c)) (snd c) []).
 Definition cache_code_spec (c : scache_case) (impl : sx) : Z := if sx_eqb impl (scache_spec c) then 0 else 3.
 
 Definition hist_case := (world * attrs * list query)%type.
-Definition hist_spec (c : hist_case) : sx := let '(W, A, qs) := c in SL (map sx_rows (map (iso_rows W A) qs)).
+Definition hist_spec (c : hist_case) : sx := let '(W, A, qs) := c in SL (map sx_rows (map (iso_rows (map dedup W) A) qs)).
 Definition hist_code_spec (c : hist_case) (impl : sx) : Z := if sx_eqb impl (hist_spec c) then 0 else 3.
 
 Definition sched_case := (world * attrs * list query * list iop)%type.
-Definition sched_spec (c : sched_case) : sx := let '(W, A, qs, ops) := c in sx_log (spec_sched W A qs ops).
+Definition sched_spec (c : sched_case) : sx := let '(W, A, qs, ops) := c in sx_log (spec_sched (map dedup W) A qs ops).
 Definition sched_code_spec (c : sched_case) (impl : sx) : Z := if sx_eqb impl (sched_spec c) then 0 else 3.
